@@ -64,6 +64,18 @@ func TestVerifLoad(t *testing.T) {
 			if kind != cache.CAS && rng.Pct(50) {
 				hash = vHash([]byte(fmt.Sprintf("key-%d-%d", ci, i)))
 			}
+			// shard directories whose name is also the name of a key space ("ac": ac.v2, raw.v2/ac, cas.v2/ac), or close to one ("ca")
+			if rng.Pct(20) {
+				pre := []string{"ac", "ac", "ca", "ac"}[rng.Intn(4)]
+				if kind != cache.CAS {
+					hash = pre + hash[2:]
+				} else {
+					for salt := 0; salt < 5000 && !strings.HasPrefix(hash, pre); salt++ {
+						data = append(vGenBytes(ci, i, 3, 200+rng.Intn(3000)), byte(salt), byte(salt>>8))
+						hash = vHash(data)
+					}
+				}
+			}
 			if seenA[kind.String()+"/"+hash] {
 				continue
 			}
@@ -99,6 +111,9 @@ func TestVerifLoad(t *testing.T) {
 			kind := []cache.EntryKind{cache.CAS, cache.AC, cache.RAW}[rng.Intn(3)]
 			data := vGenBytes(ci, 100+i, rng.Intn(7), []int{1, 300, 4096, 5000, 30000}[rng.Intn(5)])
 			hash := vHash(data)
+			if kind != cache.CAS && rng.Pct(20) {
+				hash = []string{"ac", "ac", "ca", "ac"}[rng.Intn(4)] + hash[2:]
+			}
 			if rng.Pct(25) && len(files) > 0 { // a second file for a key that exists already
 				o := files[rng.Intn(len(files))]
 				if o.kind == kind || rng.Pct(50) {
@@ -160,6 +175,7 @@ func TestVerifLoad(t *testing.T) {
 			perm[i], perm[j] = perm[j], perm[i]
 		}
 		base := time.Now().Add(-48 * time.Hour).Unix()
+		closeTimes := rng.Pct(33)
 		var total, largest int64
 		for i, f := range files {
 			st, err := os.Stat(filepath.Join(dir, f.rel))
@@ -168,9 +184,14 @@ func TestVerifLoad(t *testing.T) {
 				return
 			}
 			f.length = st.Size()
-			f.atime = base + int64(perm[i])*60
+			// access times in nanoseconds: a minute apart, or (one case in three) a microsecond apart — files
+			// touched within the same millisecond still have an order
+			f.atime = (base + int64(perm[i])*60) * 1000000000
+			if closeTimes {
+				f.atime = base*1000000000 + int64(perm[i])*1000
+			}
 			f.key = vKindName(f.kind) + "/" + f.hash
-			at := time.Unix(f.atime, 0)
+			at := time.Unix(0, f.atime)
 			// the modification time is unrelated to the access time (a file written slowly and never
 			// read again has a later mtime; a file read long after it was written an earlier one)
 			mt := time.Unix(base+int64(rng.Intn(len(files)+1))*60+int64(rng.Intn(50)), 0)
